@@ -201,6 +201,23 @@ impl TransformAttr {
         result
     }
 
+    /// The box which this transform - translations and scalings only - maps onto `bbox`
+    pub fn unapply(&self, bbox: &BoundingBox) -> Option<BoundingBox> {
+        let mut result = *bbox;
+        for transform in self.transforms.iter() {
+            match *transform {
+                TransformType::Translate(tx, ty) => {
+                    result = result.xfrm_translate(-tx, -ty);
+                }
+                TransformType::Scale(sx, sy) if sx != 0. && sy != 0. => {
+                    result = result.xfrm_scale(1. / sx, 1. / sy);
+                }
+                _ => return None,
+            }
+        }
+        Some(result)
+    }
+
     fn corners(bbox: &BoundingBox, map: impl Fn(f64, f64) -> (f64, f64)) -> BoundingBox {
         let (x1, y1, x2, y2) = (
             bbox.x1 as f64,
